@@ -547,7 +547,7 @@ def resolve_faults(spec, profile):
                 n = rec.get("lines", 0)
                 if n <= 0:
                     continue
-                faults.append({"step": i, "kind": "abort", "line": 1 + int(u * n)})
+                faults.append({"step": i, "kind": "abort", "at": 1 + int(u * n)})
                 break
             if kind == "devnull":
                 if rec.get("devnull_opens", 0) <= 0:
